@@ -268,6 +268,16 @@ def check(prog, rep):
             elif key.endswith("apply_patch"):
                 ok = any(U(lp.iter) == "patch.remove" for lp in _all_for(c))
             r4.add(k, ok, DELETIONS[key], where)
+            if key.endswith("repair_heavy"):
+                # the report must reach the user: its text must not fall under the duplicate-message filter attached to the module's
+                # logger (config.FILTER_WARNINGS: messages with these beginnings are dropped after a fixed number of repetitions)
+                from .shared import static_head, suppressed_by_filter
+                blk = parent(_stmt(c))
+                hits = [(static_head(x.args[0]), suppressed_by_filter(prog, x)) for s_ in getattr(blk, "body", []) for x in calls_in(s_)
+                        if U(x.func) == "_LOGGER.warning" and x.args and suppressed_by_filter(prog, x)]
+                r4.add(f"deletion-report-not-filtered|{key}", not hits, "the warnings that report the deletion are not subject to the duplicate-message "
+                       "filter" if not hits else f"the deletion is reported by a message beginning {hits[0][0]!r}, which config.FILTER_WARNINGS ({hits[0][1]!r}) "
+                       "suppresses after a fixed number of repetitions: later deletions go unreported", where)
     rep_ = rep
     rep_.guarded(_removed_hydrogens_are_rebuilt, prog, r4)
     heavy_removed = {}
@@ -325,8 +335,12 @@ def check(prog, rep):
     r5.add("hlist-unused", all(txt.endswith("add_hydrogens()") for _, txt in callers) and bool(callers), f"callers: {callers} (no residue is excluded through hlist)",
            "pdb2pqr/main.py")
     # failure to place is reported
-    warn = "Couldn't rebuild" in U(ah)
-    r5.add("placement-failure-warned", warn, "a hydrogen that cannot be placed is reported by a warning", f"pdb2pqr/biomolecule.py:{ah.lineno} (add_hydrogens)")
+    from .shared import suppressed_by_filter
+    warns = [c for c in calls_in(ah) if U(c.func) in ("_LOGGER.warning", "_LOGGER.error") and "Couldn't rebuild" in U(c)]
+    sup = [suppressed_by_filter(prog, c) for c in warns if suppressed_by_filter(prog, c)]
+    r5.add("placement-failure-warned", bool(warns) and not sup, "a hydrogen that cannot be placed is reported by a warning" +
+           (f" - but the message falls under config.FILTER_WARNINGS ({sup[0]!r}) and is dropped after a fixed number of repetitions" if sup else ""),
+           f"pdb2pqr/biomolecule.py:{ah.lineno} (add_hydrogens)")
 
     # ------------------------------------------------------------------ R6
     r6 = rep.rule("R6", "every residue name and optimisation type resolves to a class", floor=30)
@@ -348,6 +362,8 @@ def check(prog, rep):
     shared.rule_patch_isolation(prog, rep, "R8")
     # ingestion: the structural conditions under which every input atom becomes exactly one model atom (shared with C07)
     from . import c07
+    from .shared import rule_hidden_chains_model
+    rep.guarded(rule_hidden_chains_model, prog, rep, "R17")
     grouping = c07.ingestion_decided_on_models(prog, rep, "R16")
     if not grouping:
         c07.rule_identity(prog, rep)       # rule id R5 of C07 -> listed here as C03.R9
